@@ -5,10 +5,10 @@ import urlkit as U
 PROPERTY = "C11"
 LEVEL = "model_checking"
 BUDGET = {"quick": 240, "thorough": 2400}
-BOUNDS = {"quick": "14 base URLs (reg-name / IPv4 / IPv6 / IPv6+zone hosts; no user, user, user+password, empty password, password only; no, default, "
-                   "other port; empty path, query, fragment; two with a free hole) x every modifier x argument of 1 free code point (None where "
+BOUNDS = {"quick": "20 base URLs (reg-name / IPv4 / IPv6 / IPv6+zone hosts; no user, user, user+password, empty password, password only; no, default, "
+                   "other port; empty path, query, fragment; six with a free hole) x every modifier x argument of 1 free code point (None where "
                    "accepted; symbolic integer for with_port)",
-          "thorough": "arguments of <= 2 free code points; four more bases with holes"}
+          "thorough": "arguments of <= 2 free code points on all 20 bases"}
 ASSUMPTIONS = ["the canonicalised argument is computed with the matching yarl quoter (QUOTER, PATH_QUOTER, QUERY_QUOTER, FRAGMENT_QUOTER; covered by "
                "C01-C04)", "with_host arguments are ASCII non-IP text (IDNA / IP literals are cut and counted); IP hosts appear as concrete bases",
                "arguments exclude lone surrogates"]
@@ -195,7 +195,9 @@ def families(tier):
     q = tier == "quick"
     fams = []
     bases = list(BASES)
-    if not q:
+    # userinfo next to an explicit default port / a trailing-dot host; a name that already has a suffix (third seeding round)
+    bases += [("user-default-port-suffix", ["https://u:p@h:443/d/n.x?q#f"]), ("user-trailing-dot-host", ["http://u@h.:81/n.x#f"])]
+    if True:  # the four hole bases were thorough-only until the third seeding round; arg1 forms are cheap enough for every change
         bases += [("hole-pass", ["http://u:", NS, "@h/"]), ("hole-query", ["http://h/p?", NS, "=1#f"]), ("hole-frag", ["http://h/p#", NS]),
                   ("hole-host", ["http://u@g", ("in", "abcAB-._~"), ":1/"])]
     for bn, bsk in bases:
